@@ -327,7 +327,11 @@ func (cc *chainCtx) decomposeOr(v ssa.Value) (int64, []orItem, bool) {
 		}
 	case *ssa.BinOp:
 		if x.Op == token.OR {
-			if _, isCallY := stripConv(x.Y).(*ssa.Call); isCallY {
+			_, isCallY := stripConv(x.Y).(*ssa.Call)
+			if _, isPhiY := stripConv(x.Y).(*ssa.Phi); isPhiY {
+				isCallY = true // a sub-chain computed separately (an inlined helper's result)
+			}
+			if isCallY {
 				if _, isK := c.constByte(x.Y); !isK {
 					b1, its1, ok1 := cc.decomposeOr(x.X)
 					b2, its2, ok2 := cc.decomposeOr(stripConv(x.Y))
